@@ -1,6 +1,7 @@
 import Mpd.Command
 import MpdSpec.Tokenizer
 import MpdProofs.Lemmas.Tok
+import MpdProofs.Lemmas.Utf8
 /-!
 # C06 — command arguments reach the server byte for byte
 
@@ -376,5 +377,22 @@ example : addArguments (str "find") sampleArgs = .ok (line (str "find") sampleAr
 
 example : K1 (str "Joe's") ∧ K1 (str "a\\b") ∧ K1 (str "foo\"bar") := by decide
 example : ¬ accepted (str "a\nb") ∧ ¬ accepted [97, 0, 98] := by decide
+
+/-! ## the bytewise model is not an approximation for non-ASCII text
+
+`escape_argument` iterates `chars()`. For every Rust string — the UTF-8 encoding of any sequence of
+Unicode scalar values — its transcription on chars (`Utf8.escapeArgumentC`, written as the Rust is
+written) produces exactly the bytes the bytewise model produces, and those bytes are in the model's
+domain (`validUtf8`). The theorems above, which quantify over all byte strings, therefore speak about
+what the code does on every string, multi-byte characters included. -/
+
+theorem C06_escape_is_charwise (cs : List Nat) (h : ∀ c ∈ cs, Utf8.isScalar c = true) :
+    escapeArgument (Utf8.encodeStr cs) = Utf8.encodeStr (Utf8.escapeArgumentC cs) ∧
+    validUtf8 (Utf8.encodeStr cs) = true :=
+  ⟨Utf8.escapeArgument_encode cs (Utf8.chars_of_scalar cs h), Utf8.validUtf8_encodeStr cs h⟩
+
+/-- non-vacuity: `Björk "Jóga"` (two-byte chars before a quote and a blank) -/
+example : Utf8.encodeStr (Utf8.escapeArgumentC [66, 106, 246, 114, 107, 32, 34, 74, 243, 103, 97, 34]) =
+    [34, 66, 106, 195, 182, 114, 107, 32, 92, 34, 74, 195, 179, 103, 97, 92, 34, 34] := by decide
 
 end Mpd.C06
